@@ -33,7 +33,7 @@ var props = map[string]propCfg{
 		Bounded:    []func(*run){boundedOpEqual},
 	},
 	"C16": {
-		Modules: []string{"fc"},
+		Modules: []string{"fc", "pkg/sys"},
 		Decided: []string{
 			"every scanner / tokenizer loop of wrapper.go terminates (variant) and makes progress on every byte string; token extents stay inside the buffer",
 		},
@@ -45,5 +45,13 @@ var props = map[string]propCfg{
 			"printer half: FTypeToGo and its helpers (funcTypeToGo, fSliceToGo, fTupleToGo, fpToGo, recordTypeToGo, fUnionToGo, tArgsToGo, fargs, freturn) equal the documented type mapping go_type (specs/types.spec) for every FType value",
 		},
 		NotDecided: []string{"parser half: that parseType and friends build the FType the documented grammar prescribes (precedence of [] over *, -> nesting only through parentheses) is not decided", "package qualification of external type names (GenType / piRegEType)"},
+	},
+	"C18": {
+		Modules: []string{"cmd/build_sample_md"},
+		Decided: []string{
+			"convOne returns exactly the documented section (title after the first blank or the file name, content verbatim in a code fence, link to gen_<base>.go) and panics exactly when the listed file cannot be read",
+			"processListFile writes header + sections joined by newline, one section per non-empty line in list order, to Join(Dir(list), dest); every other path is unchanged; any panic (unreadable list or listed file) leaves the file system untouched (no partial README)",
+		},
+		NotDecided: []string{"main's argument handling beyond routing one argument to processListFile(\"README.md\", arg)", "the result of the final write is ignored by the tool (observation): a failed write returns normally with nothing written"},
 	},
 }
